@@ -192,5 +192,11 @@ func Replay(sys *System, ops []int) (string, string, []string) {
 			return k, w, log
 		}
 	}
+	if sys.OnNewState != nil {
+		// the per-state oracle of the state the history ends in
+		if k, w := sys.OnNewState(inst); k != "" {
+			return k, w, log
+		}
+	}
 	return "", "", log
 }
